@@ -54,3 +54,40 @@ func VH_C08_VsixRelationships() {
 	vhAssert(again.Relationship[0].Id == rels.Relationship[0].Id, "identifier-deterministic")
 	vhReach("related") // vh:require related
 }
+
+// H08.vsix-relpath: where the relationship part of a package part lives (OPC
+// 9.3.3: the part /dir/name has its relationships in /dir/_rels/name.rels,
+// the package root in /_rels/.rels). Signer (newRels) and verifier
+// (readSignature, parseRels) both locate the origin and signature parts
+// through relPath, so an off-by-one here makes a re-signed package carry its
+// relationships where no reader looks. Part name: one of four directories
+// (root, one and two levels, the digital-signature directory) and a base
+// name of 1..3 characters over letters and dot (not "." itself, which names
+// the directory), compared with the spec's construction written out by hand.
+func VH_C08_VsixRelPath() {
+	const alphabet = "ab."
+	dirs := []string{"", "a", "a/b", "package/services/digital-signature"}
+	dir := dirs[vhConcretize(vhInt("directory", 0, len(dirs)-1), 4)]
+	raw := vhBytes("base-name", vhConcretize(vhInt("base-len", 1, 3), 4))
+	nb := make([]byte, len(raw))
+	for i, c := range raw {
+		nb[i] = alphabet[int(c)%len(alphabet)]
+	}
+	base := string(nb)
+	if base == "." || base == ".." {
+		return
+	}
+	want := "_rels/" + base + ".rels"
+	part := base
+	if dir != "" {
+		want = dir + "/" + want
+		part = dir + "/" + base
+	}
+	vhAssert(relPath(part) == want, "relationship-part-beside-its-part")
+	vhAssert(!keepFile(relPath(part)), "relationship-part-regenerated-not-kept")
+	vhAssert(relPath("") == "_rels/.rels", "package-root-relationships")
+	vhAssert(relPath(originPath) == "package/services/digital-signature/_rels/origin.psdor.rels", "origin-relationships")
+	vhReach("named") // vh:require named
+}
+
+func VH_C05_VsixRelPath() { VH_C08_VsixRelPath() }
